@@ -530,7 +530,10 @@ macro_rules! relation_to_query_translator_trait_constructor {
                         expr::function::Function::InList => {
                             if let ast::Expr::Tuple(t) = arguments[1].clone() {
                                 ast::Expr::InList {
-                                    expr: Box::new(arguments[0].clone()),
+                                    // IN binds tighter than AND / OR / NOT
+                                    expr: Box::new(ast::Expr::Nested(Box::new(
+                                        arguments[0].clone(),
+                                    ))),
                                     list: t.clone(),
                                     negated: false,
                                 }
@@ -744,17 +747,18 @@ macro_rules! relation_to_query_translator_trait_constructor {
                 assert!(exprs.len() == 2);
                 ast::Expr::ILike {
                     negated: false,
-                    expr: Box::new(exprs[0].clone()),
-                    pattern: Box::new(exprs[1].clone()),
+                    expr: Box::new(ast::Expr::Nested(Box::new(exprs[0].clone()))),
+                    pattern: Box::new(ast::Expr::Nested(Box::new(exprs[1].clone()))),
                     escape_char: None,
                 }
             }
             fn like(&self, exprs: Vec<ast::Expr>) -> ast::Expr {
                 assert!(exprs.len() == 2);
+                // LIKE binds tighter than AND / OR / NOT
                 ast::Expr::Like {
                     negated: false,
-                    expr: Box::new(exprs[0].clone()),
-                    pattern: Box::new(exprs[1].clone()),
+                    expr: Box::new(ast::Expr::Nested(Box::new(exprs[0].clone()))),
+                    pattern: Box::new(ast::Expr::Nested(Box::new(exprs[1].clone()))),
                     escape_char: None,
                 }
             }
